@@ -4,7 +4,8 @@ patch="$1"; shift
 cd /repo || exit 2
 if ! git diff --quiet; then echo "/repo is dirty"; exit 2; fi
 git apply "$patch" || { echo "patch does not apply"; exit 2; }
-trap 'git -C /repo checkout -- . ; git -C /repo clean -fdq src tests 2>/dev/null' EXIT
+# afterwards: restore /repo and regenerate lean/FM/Generated from the restored tree (the run against the change rewrote it)
+trap 'git -C /repo checkout -- . ; git -C /repo clean -fdq src tests 2>/dev/null; (cd /verif && PYTHONPATH=/verif/harness /venv/bin/python harness/translate.py >/dev/null 2>&1)' EXIT
 cd /verif
 for p in "$@"; do
   # the evidence file must keep describing the unchanged tree: save it and put it back after the run against the change
